@@ -18,6 +18,10 @@ def run(ctx, scenarios, rounds, seed, race=True, timeout=900):
     cmd = ['go', 'test'] + args + ['-overlay', ov, '-vet=off', '-count=1', '-timeout', '%ds' % (timeout - 30),
                                    '-run', 'TestVerifNative', '.']
     rc, log = C.run(cmd, cwd=C.REPO, env=env, timeout=timeout)
+    if rc != 0 and ('[build failed]' in log or '[setup failed]' in log):
+        import time
+        time.sleep(5)   # shared Go build cache: retry once (see purecore.run_diff)
+        rc, log = C.run(cmd, cwd=C.REPO, env=env, timeout=timeout)
     hits, stats = [], {}
     if os.path.exists(out):
         for line in open(out):
